@@ -1,12 +1,12 @@
 #!/bin/bash
-# usage: run_kani.sh <repo> <harness-file-to-append-to-storages.rs> <outdir> <timeout-secs> harness...
+# usage: run_kani.sh <repo> <harness-file[:harness-file..] to append to storages.rs> <outdir> <timeout-secs> harness...
 # Copies the crate to a scratch dir, appends the cfg(kani) harness module, runs each harness, writes <outdir>/<harness>.log
 REPO=$1; HF=$2; OUT=$3; TMO=$4; shift 4
 D=$(mktemp -d /var/tmp/specs-verif.kani.XXXXXX)
 trap 'rm -rf "$D"' EXIT
 mkdir -p "$OUT"
 cp -r "$REPO/src" "$REPO/Cargo.toml" "$REPO/Cargo.lock" "$REPO/specs-derive" "$D/" 2>/dev/null
-cat "$HF" >> "$D/src/storage/storages.rs"
+for f in $(echo "$HF" | tr ":" " "); do cat "$f" >> "$D/src/storage/storages.rs"; done
 python3 - "$D/Cargo.toml" <<'PY'
 import re,sys
 p=sys.argv[1]; s=open(p).read()
